@@ -1379,6 +1379,22 @@ func (r *RigWD) oracle() {
 	}
 }
 
+// dbPlacementOpen: the operation's source database has collection-level mapping entries but no whole-database entry, and
+// the operation is routed to a different database than the one a database-level operation of that source database goes to.
+func (r *RigWD) dbPlacementOpen(e *WDEvent) bool {
+	src := dbOf(e.DB)
+	if _, whole := r.sc.Mapping[src+".*"]; whole {
+		return false
+	}
+	opDB, _ := r.mapped(e.DB, e.Coll)
+	for from, t := range r.sc.Mapping {
+		if strings.HasPrefix(from, src+".") && strings.SplitN(t, ".", 2)[0] != opDB {
+			return true
+		}
+	}
+	return false
+}
+
 // judge applies the common rules to one clean delivery.
 func (r *RigWD) judge(dl *wdDelivery, muts []*wdCall, wantKind string, mustApply, newerPresent bool, fields func(*wdCall) string) {
 	known := dl.dbDroppedAfter
@@ -1435,6 +1451,13 @@ func (r *RigWD) judge(dl *wdDelivery, muts []*wdCall, wantKind string, mustApply
 				}
 			}
 		}
+	}
+	if dl.err != nil && strings.Contains(dl.err.Error(), "database not found") && r.dbPlacementOpen(e) {
+		// the source database has only collection-level mapping entries: its database-level operations were accepted under
+		// either name (C09 above), so the database this operation is routed to may never have been created downstream by the
+		// replication itself. The failure says nothing about incarnations.
+		s.Probe("db_level_placement_open")
+		return
 	}
 	if dl.err != nil {
 		s.Violate("C08", "live_op_failed", "%s addresses the incarnation that is present downstream and no fault was injected, but it failed: %v", what, dl.err)
